@@ -12,8 +12,8 @@ TRACE_CFG = "EvmFeesTrace.cfg"
 PROCS = 4
 
 MANIFEST_ENTRY = dict(engine="EvmFees", design="§4 C07",
-    technique="TLA+ spec EvmFees.tla (BigNum / 18-digit fixed point): property layer P (fee floor on provided and charged fee, fee cap >= base fee, gasUsed = max(evmGas, multiplier x gasLimit) <= gasLimit, sender pays and collector receives exactly gasUsed x effective price) and as-built machine M (ante decorators of both routes, up-front deduction, execution, clamp, refund); EvmFeesGen.tla enumerates a parameter grid and TLC checks M against P exhaustively (intended design passes, the machine with the DynamicFee-extension defect must fail); every grid scenario and seeded random parameter points are executed by real DeliverTx on fresh chains with those parameters; TLC trace spec decides P on the recorded balances and responses",
-    text="TLC enumerates the grid tx type x gas limit (exact need, 2x, large) x price relations to base fee and floor x MinGasMultiplier x MinGasPrice x program (transfer, calldata + access list, revert, out of gas, refund-heavy SSTORE clearing, creation), two-message transactions, NoBaseFee, and Cosmos transactions with and without the DynamicFee extension option, and proves on the model that the intended design never accepts a fee below the floor and charges gas exactly; each scenario is then delivered in block 1 of a real chain whose genesis carries exactly those fee-market parameters, and the trace specification re-derives from the statement, with EVM gas known independently of the response, what gasUsed, the sender's payment and the fee collector's receipt must be.",
+    technique="TLA+ spec EvmFees.tla (BigNum / 18-digit fixed point): property layer P (fee floor on provided and charged fee, fee cap >= base fee, gasUsed = max(evmGas, multiplier x gasLimit) <= gasLimit, every sender pays exactly its own gasUsed x effective price (+ its own value), the collector receives the sum, no other observed balance moves) and as-built machine M (ante decorators of both routes, up-front deduction, execution, clamp, refund); EvmFeesGen.tla enumerates a parameter grid and TLC checks M against P exhaustively (intended design passes, the machine with the DynamicFee-extension defect must fail); every grid scenario and seeded random parameter points are executed by real DeliverTx on fresh chains with those parameters; TLC trace spec decides P on the recorded balances and responses",
+    text="TLC enumerates the grid tx type x gas limit (exact need, 2x, large) x price relations to base fee and floor x MinGasMultiplier x MinGasPrice x program (transfer, calldata + access list, revert, out of gas, refund-heavy SSTORE clearing, creation), multi-message transactions of one sender and of 2-3 different senders (different programs, prices and gas limits per message), NoBaseFee, block gas limit, and Cosmos transactions with and without the DynamicFee extension option, and proves on the model that the intended design never accepts a fee below the floor and charges gas exactly; each scenario is then delivered in block 1 of a real chain whose genesis carries exactly those fee-market parameters, and the trace specification re-derives from the statement, with EVM gas known independently of the response, what gasUsed, the sender's payment and the fee collector's receipt must be.",
     note="EVM gas of the SSTORE-clearing program is measured by re-executing the same message with MinGasMultiplier = 0 on a twin chain; scripted programs only (no precompiles, no erc20 hook failure, no staking-reward claim for fees); one transaction per chain, in block 1; CheckTx-only rules (mempool min gas price, intrinsic gas) are outside the property.")
 
 
@@ -129,6 +129,11 @@ def run(c):
         for oc in ("success", "revert", "oog", "refund"):
             if acc[(t, oc)] < 5:
                 raise Infra("vacuous run: only %d accepted %s transactions with scripted outcome %s" % (acc[(t, oc)], t, oc))
+    nsenders = Counter(len({m["from"] for m in o["msgs"]}) for o in txs if o["res"]["code"] == 0 and o["route"] == "eth")
+    for k in (2, 3):
+        if nsenders[k] < (15 if quick else 100):
+            raise Infra("vacuous run: only %d accepted transactions with messages of %d different senders" % (nsenders[k], k))
+    c.extra["accepted_by_number_of_senders"] = {str(k): v for k, v in sorted(nsenders.items())}
     if not any("success" in oc.split("+") and ("revert" in oc or "oog" in oc) for (t, oc) in acc if t == "multi"):
         raise Infra("vacuous run: no accepted two-message transaction with mixed outcomes")
     refund = sum(1 for o in txs if o["res"]["code"] == 0 for m in o["msgs"] if m["prog"] == "sstore" and m["twinGas"] != "-1")
@@ -143,12 +148,14 @@ def run(c):
     c.extra["clamp_expected_to_bind_executions"] = clamp_hi
     def sample(o):
         return {"par": o["par"], "route": o["route"], "cos": o["cos"] if o["route"] == "cosmos" else None,
-                "msgs": [{k: m[k] for k in ("type", "gas", "cap", "tip", "value", "prog", "twinGas", "resp")} for m in o["msgs"]],
+                "msgs": [{k: m[k] for k in ("from", "type", "gas", "cap", "tip", "value", "prog", "twinGas", "resp")} for m in o["msgs"]],
                 "res": {k: o["res"][k] for k in ("code", "gasUsed", "gasWanted")}, "pre": o["pre"], "post": o["post"]}
     seen = set()
     for o in txs:
         k = _kind_of(o)
-        if o["res"]["code"] == 0 and k not in seen and len(c.samples) < 6 and k[0] in ("dynamic", "multi", "cosmos-dynfee", "legacy"):
+        if len({m["from"] for m in o["msgs"]}) > 1:
+            k = ("multisender", "")
+        if o["res"]["code"] == 0 and k not in seen and len(c.samples) < 6 and k[0] in ("dynamic", "multi", "multisender", "cosmos-dynfee", "legacy"):
             seen.add(k)
             c.samples.append(sample(o))
 
@@ -157,15 +164,19 @@ def run(c):
     for v in sorted(res["viol"], key=lambda v: v["line"]):
         first.setdefault(sig_of(v), v)
     confirmed = []
+    paths = {}
     for s, v in first.items():
         o = lines[v["line"] - 1]
-        path = save_replay("C07", "%s-scn%d" % (c.seed, o["scn"]),
-                           {"property": "C07", "driver": "evmfees", "signature": s, "scenario": json.loads(o["cfgJson"])})
-        if s in replay(path, quiet=True):
+        paths[s] = save_replay("C07", "%s-scn%d" % (c.seed, o["scn"]),
+                               {"property": "C07", "driver": "evmfees", "signature": s, "scenario": json.loads(o["cfgJson"])})
+    # one harness + one TLC start for all of them; every scenario still runs alone on its own fresh chain
+    shown = _replay_many(list(paths.values()))
+    for s, v in first.items():
+        if s in shown[paths[s]]:
             confirmed.append(v)
-            c.replays[s] = path
+            c.replays[s] = paths[s]
         else:
-            raise Infra("signature %s did not reproduce from %s" % (s, path))
+            raise Infra("signature %s did not reproduce from %s" % (s, paths[s]))
     c.add_violations(confirmed)
     c.assumptions += [
         "TLC 1.8.0, the Json community module and the BigNum Java override (java/BigNum.java) are trusted",
@@ -173,18 +184,28 @@ def run(c):
         "balances are read from the bank keeper immediately before and after DeliverTx inside block 1 (before EndBlock); the fee collector receives nothing else in that interval",
         "each chain's genesis sets the fee-market parameters with EnableHeight = 1, so block 1 runs with exactly the genesis base fee",
         "P tolerates a charged Cosmos fee below a fractional floor by less than one price unit per gas (integral gas prices) and either integer rounding of multiplier x gasLimit",
-        "sender is funded far above every fee; staking-reward claims for fees, fee grants, erc20 hooks and precompiles are not exercised",
+        "messages of one sender inside one transaction are judged in sum (balances are observed around the transaction); messages of different senders are judged per sender",
+        "senders are funded far above every fee; staking-reward claims for fees, fee grants, erc20 hooks and precompiles are not exercised",
     ]
+
+
+def _replay_many(paths):
+    """re-executes saved scenarios (each on its own fresh chain); returns path -> signatures shown"""
+    if not paths:
+        return {}
+    build_harness()
+    wd = scratch("C07-replay")
+    _run_scenarios(wd, [json.load(open(p))["scenario"] for p in paths], 0, 1, procs=1)
+    res, _ = validate_trace(wd, "EvmFeesTrace.tla", TRACE_CFG)
+    out = {p: set() for p in paths}
+    for v in res["viol"]:
+        out[paths[v["scn"] - 1]].add(sig_of(v))
+    return out
 
 
 def replay(path, quiet=False):
     """re-executes one saved scenario on the real code and returns the signatures it shows"""
-    build_harness()
-    wd = scratch("C07-replay")
-    obj = json.load(open(path))
-    _run_scenarios(wd, [obj["scenario"]], 0, 1, procs=1)
-    res, _ = validate_trace(wd, "EvmFeesTrace.tla", TRACE_CFG)
-    sigs = sorted({sig_of(v) for v in res["viol"]})
+    sigs = sorted(_replay_many([path])[path])
     if not quiet:
         for s in sigs:
             log("replay shows: " + s)
